@@ -73,6 +73,8 @@ package kadm
 // map-range ghost set's exit condition; a closed form of the sum is not expressible in the contract language.)
 //@ func (l GroupLag) TotalByTopic() (m GroupTopicsLag)
 //@   prop C35
+//   each topic's total starts from zero: nothing is carried over from the topic walked before
+//@   loop 1 invariant [a-topic-total-starts-from-zero] (forall k int32 :: !visited(k)) ==> mt.Lag == 0
 //@   site store Lag#0 assert [adds-only-positive-lags-of-the-partition] val == prev + ps[p].Lag && ps[p].Lag > 0
 //@   site mapupdate TopicLag#0 assert [stores-the-topic-total] mapkey == t && val == mt && val.Topic == t
 
